@@ -100,9 +100,33 @@ func (x *Exec) heapSortFor(key string) string {
 }
 
 // heapKeyPtr returns the heap name for pointers to t.
+// intKind separates Go types that share the SMT sort Int but can never alias in
+// memory (an []int is never an []*T or a []uint8): type-based disjointness.
+func intKind(t types.Type) string {
+	switch u := t.Underlying().(type) {
+	case *types.Basic:
+		if u.Kind() == types.Int || u.Kind() == types.UntypedInt || u.Kind() == types.UntypedNil {
+			return ""
+		}
+		return "_" + u.Name()
+	case *types.Pointer:
+		return "_ptr"
+	case *types.Map:
+		return "_map"
+	case *types.Signature:
+		return "_fn"
+	case *types.Chan:
+		return "_chan"
+	}
+	return ""
+}
+
 func (x *Exec) heapKeyPtr(t types.Type) string {
 	s := x.so.SortOf(t)
 	k := "H_" + smt.Sanitize(s)
+	if s == "Int" {
+		k += intKind(t)
+	}
 	if _, ok := x.heapSorts[k]; !ok {
 		x.heapSorts[k] = fmt.Sprintf("(Array Int %s)", s)
 	}
@@ -113,6 +137,9 @@ func (x *Exec) heapKeyPtr(t types.Type) string {
 func (x *Exec) heapKeySlice(t types.Type) string {
 	s := x.so.SortOf(t)
 	k := "HS_" + smt.Sanitize(s)
+	if s == "Int" {
+		k += intKind(t)
+	}
 	if _, ok := x.heapSorts[k]; !ok {
 		x.heapSorts[k] = fmt.Sprintf("(Array Int (Array Int %s))", s)
 	}
@@ -136,6 +163,9 @@ func (x *Exec) initHeap(key string) *smt.Term {
 	}
 	t := x.b.Const(key+"@pre", sort)
 	x.initHeaps[key] = t
+	if key == "G_alloc" {
+		x.hyps = append(x.hyps, x.b.Cmp(">=", t, x.b.Const("alloc0", "Int")))
+	}
 	return t
 }
 
